@@ -204,6 +204,8 @@ def main():
 
     # ---------------- inputs
     seeds = [("empty", ""), ("ascii", "TEST SEED"), ("ascii", "a"), ("unicode", "clé-鍵-🔑"),
+             # seeds that LOOK like encoded key material are seeds like any other (SHA-512 of their UTF-8 bytes)
+             ("hex64", "00112233445566778899aabbccddeeff00112233445566778899AABBCCDDEEFF"), ("hex64", "f" * 64), ("base64", "QUJDREVGR0hJSktMTU5PUFFSU1RVVldYWVowMTIzNDU="),
              ("10KiB-random", rand_unicode(rnd, 10240))]
     for _ in range(24 if thorough else 1):
         seeds.append(("ascii", "".join(chr(rnd.randrange(0x20, 0x7f)) for _ in range(rnd.randrange(1, 40)))))
@@ -395,6 +397,41 @@ def main():
                 if c["known"]:
                     o["known"] = c["known"]
                 out.write(json.dumps(o) + "\n")
+        # ---------------- the same command replayed over its own (partly lost / replaced) output
+        for what in ("keygen", "keyderive"):
+            for damage in ("pub-deleted", "pub-replaced", "priv-replaced"):
+                d = R.fresh()
+                for fn in ("out", "out.pub"):
+                    try:
+                        os.remove(os.path.join(d, fn))
+                    except OSError:
+                        pass
+                if what == "keygen":
+                    args = ["keygen", "--seed=replay seed", "out"]
+                else:
+                    with open(os.path.join(d, "in"), "wb") as f:
+                        f.write(parents[0][1])
+                    args = ["keyderive", "in", "out", "--path=a", "--path=b"]
+                rc1, _ = R.run(args, d)
+                first = read_pair(os.path.join(d, "out")) if rc1 == 0 else (b"", b"")
+                if damage == "pub-deleted":
+                    os.remove(os.path.join(d, "out.pub"))
+                elif damage == "pub-replaced":
+                    with open(os.path.join(d, "out.pub"), "wb") as f:
+                        f.write(b"-----BEGIN PUBLIC KEY-----\nMCowBQYDK2VuAyEAAAAAAAAAAAAAAAAAAAAAAAAAAAAAAAAAAAAAAAAAAAAAAA=\n-----END PUBLIC KEY-----\n")
+                else:
+                    with open(os.path.join(d, "out"), "wb") as f:
+                        f.write(PRIV_PREFIX + bytes(32))
+                rc2, _ = R.run(args, d)
+                try:
+                    second = read_pair(os.path.join(d, "out"))
+                except OSError:
+                    second = (b"<missing>", b"<missing>")
+                ok = rc1 == 0 and rc2 == 0 and second == first
+                out.write(json.dumps({"id": "c19-replay-%s-%s" % (what, damage), "class": "replay:%s:%s" % (what, damage), "nontrivial": True, "meta": {"rc": [rc1, rc2]},
+                                      "oracle_ok": ok, "model_agrees": None,
+                                      "oracle_msg": "" if ok else "%s replayed with the same inputs after its %s: the key files differ from the first run (or are missing): the same inputs must give the same key files and the public file must match the private file" % (what, damage.replace("-", " file "))}) + "\n")
+                shutil.rmtree(d, ignore_errors=True)
 
 
 if __name__ == "__main__":
